@@ -175,6 +175,7 @@ class World:
         if isinstance(v, (set, frozenset, str, range, dict)): return list(v)
         if isinstance(v, type) and issubclass(v, enum.Enum): return list(v)
         if isinstance(v, (map, zip, filter, itertools.chain, reversed)): return list(v)
+        if isinstance(v, (type({}.keys()), type({}.values()), type({}.items()))): return list(v)       # views of a dict the interpreted code owns
         for h in self.attr_hooks:
             r = h(it, ('iterate',), (v,))
             if r is not NotImplemented: return r
